@@ -115,23 +115,31 @@ def register(db):
 
     # ------------------------------------------------------------------ cleaning of the user supplied prefix map
     NONEMPTY = "k is not None and k != ''"
+    XML_NS = "http://www.w3.org/XML/1998/namespace"
+    OKPFX = ("uf('is_ncname', 'bool', some(k)) and k != 'xmlns' and ((k == 'xml') == (ns_map[k] == '" + XML_NS + "'))")
+    # stated for an arbitrary prefix p (a ghost parameter = universally quantified, ground when negated)
+    USABLE = ("implies(p in {m}, uf('is_ncname', 'bool', p) and p != 'xmlns' "
+              f"and ((p == 'xml') == ({{m}}[p] == '{XML_NS}')))")
     INV = [
         "forall('str|None', lambda k: implies(k in result, k != '' and result[k] != ''))",
         "forall('str|None', lambda k: implies(k is not None and k in result, k in ns_map and ns_map[k] == result[k]))",
-        f"forall('str|None', lambda k: implies({NONEMPTY} and k in ns_map and ns_map[k] != '' and pos_of(ns_map, k) < _i, k in result))",
+        f"forall('str|None', lambda k: implies({NONEMPTY} and k in ns_map and ns_map[k] != '' and {OKPFX} and pos_of(ns_map, k) < _i, k in result))",
         "implies(None in result, (None in ns_map and result[None] == ns_map[None]) or ('' in ns_map and result[None] == ns_map['']))",
         "same_dict(ns_map, old(ns_map))",
+        USABLE.format(m="result"),
     ]
     db.add(Contract(
         "xsdata.utils.namespaces:clean_prefixes",
-        params={"ns_map": NSMAP},
+        params={"ns_map": NSMAP}, ghost={"p": "str"},
         ensures=[
             ("no-empty-prefix-key-no-empty-uri", "forall('str|None', lambda k: implies(k in result, k != '' and result[k] != ''))"),
             ("prefixed-bindings-are-the-user-bindings", "forall('str|None', lambda k: implies(k is not None and k in result, k in ns_map and ns_map[k] == result[k]))"),
-            ("every-usable-prefixed-binding-kept", f"forall('str|None', lambda k: implies({NONEMPTY} and k in ns_map and ns_map[k] != '', k in result))"),
+            ("every-usable-prefixed-binding-kept", f"forall('str|None', lambda k: implies({NONEMPTY} and k in ns_map and ns_map[k] != '' and {OKPFX}, k in result))"),
             ("default-namespace-comes-from-the-user-map", "implies(None in result, (None in ns_map and result[None] == ns_map[None]) or ('' in ns_map and result[None] == ns_map['']))"),
             ("default-dropped-when-its-uri-also-has-a-prefix", "implies(None in result, not exists('str', lambda k: k != '' and k in result and result[k] == result[None]))"),
             ("user-map-untouched", "same_dict(ns_map, old(ns_map)) and not (result is ns_map)"),
+            # Namespaces in XML 1.0: a prefix is an NCName, 'xmlns' can not be declared, 'xml' is bound to one URI
+            ("every-prefix-is-usable-in-a-document", USABLE.format(m="result")),
         ],
         raises={}, returns=NSMAP,
         loops=[Loop(invariants=INV, header="ns_map.items()", modifies=["result"], vars={"result": NSMAP})],
